@@ -61,6 +61,34 @@ class C04(Spec):
         L = []
         types = zoo(20260923, 80 if q else 300)
         per = 25 if q else 400
+        # transmitted counts and lengths at the edge of usize, placed at every count / length position of simple shapes:
+        # the addition count of an extensible SEQUENCE read by a reader that knows 0..3 additions, the length of an unconstrained
+        # OCTET STRING / SEQUENCE OF, the index of an extensible CHOICE / ENUMERATED (normally small number in its long form)
+        def bits_to_line(t, bits):
+            bs = []
+            for i in range(0, len(bits), 8):
+                ch = bits[i:i + 8] + [0] * (8 - len(bits[i:i + 8]))
+                x = 0
+                for b in ch:
+                    x = 2 * x + b
+                bs.append(x)
+            return U.line(1202, U.enc_ty(t) + [len(bits)] + bs)
+        huge = [2 ** 64 - 1, 2 ** 64 - 2, 2 ** 64 - 64, 2 ** 63, 2 ** 63 - 1, 2 ** 32, 2 ** 32 - 1, 2 ** 31, 65536]
+        def nsnn_long(v, octets=8):
+            return [1] + [int(c) for c in format(octets, "08b")] + [int(c) for c in format(v, "0%db" % (8 * octets))]
+        for known in range(0, 4):
+            fields = [("req", None, ("bool",))] + [("opt", None, ("bool",))] * known
+            key = U.consistent_seq(fields, 0)
+            if key not in U.G.SEQ:
+                continue
+            t = ("seq", fields, key)
+            for v in huge:
+                for tail in ([], [1] * 9, [0] * 70, [1, 0] * 40):
+                    L.append(bits_to_line(t, [1, 1] + nsnn_long(v) + tail))
+        for t in [("choice", [("bool",), ("bool",)], (1, True)), ("enum", 3, (2, True))]:
+            if (t[0] == "choice" and t[2] in U.G.CHOICE) or (t[0] == "enum" and t[2] in U.G.ENUM):
+                for v in huge:
+                    L.append(bits_to_line(t, [1] + nsnn_long(v) + [0] * 16))
         # valid encodings from the model's encoder
         enc_lines = []
         enc_types = []
